@@ -37,6 +37,12 @@ CHECKS = {
  "C13": (True, "exploration", "metamorphic monitor: two executions of the real compiler on a text and on its re-layout at one token boundary (13 white-space / comment forms); token boundaries from the harness's own X.680 tokenizer; outcome digests (status, warning count, doc-free token-normalised bindings) must be equal",
          "Held on the re-layouts executed: every token boundary of small grammar-generated inputs (exhaustive per input) and sampled boundaries of real-world modules, each with tab/LF/CRLF/blank runs/no separator (only where the tokens stay separable)/line comment (LF and CRLF)/inline comment/block comment (spaced, tight, nested, multi-line)/comments with quotes, braces, keywords and non-ASCII text.",
          "Trusted: harness tokenizer tok.rs (every transformed text is re-tokenised and must give the same token sequence, else the transformation is discarded); a sign directly before digits is kept with the number. Real-world files are used only if their single-space re-join reproduces the original outcome.", "DESIGN.md §4 C13"),
+ "C15": (True, "exploration", "reference-model monitor: FROM expressions built by the harness (exact character-set semantics kept as ground truth) compiled by the real compiler on 10 string types; the character set denoted by the emitted from(..) items of the syn projection is compared with the model set and with the base alphabet",
+         "Exhaustive for 1 and 2 atoms (strings, code-point ranges over a per-type probe alphabet, | ^ EXCEPT) on NumericString/PrintableString/VisibleString/IA5String, one-atom cases on BMPString/UniversalString, seeded random 3-atom expressions, SIZE in four combinations, serial FROM, assignment and component, plus the four non-known-multiplier types (no annotation allowed). Four root-cause classes of genuine alphabet-folding defects are known findings; anything else is reported with its exact shape.",
+         "Trusted: c15.rs set semantics (ranges in ascending code-point order restricted to the type alphabet; from(\"a..=b\") denotes every scalar between a and b). BMP/Universal are compared on a finite universe (printable ASCII + U+00E9). Ranges reaching far into the BMP combined with SIZE make the compiler run for minutes (linear find_char_index) and are not generated.", "DESIGN.md §4 C15"),
+ "C16": (True, "exploration", "reference-model monitor: one hostile name per tiny module in each role; syn legality of every identifier of the output, documented case rules, normalisation relation to the ASN.1 name, identifier annotation iff renamed, references spelled like the definition",
+         "Exhaustive over 58 Rust keywords (strict, reserved, weak) x 7 roles plus special type names; 100k (quick) / 1M (thorough) seeded random legal ASN.1 identifiers up to 24 characters with hyphens, digits next to case changes and all-caps runs.",
+         "Trusted: syn (rejects keywords and illegal identifiers), the normalisation relation (drop _ and -, lower-case, optional r_ escape). Edition 2021 keyword set (gen is an ordinary identifier). Same-scope collisions of two names that mangle alike are C01's subject.", "DESIGN.md §4 C16"),
  "C19": (True, "exploration", "metamorphic monitor: item-level diff of the syn projections of the same input compiled under two configurations that differ in exactly one option, along the edges of the configuration lattice; each coordinate has an allowance predicate",
          "Held on the executions observed: 160 generated inputs x 48-point sub-lattice (quick) / 4000 x the full 192-point lattice (thorough); along every edge only the documented aspect changed: From impls exactly for alternatives with a payload type unique in their CHOICE, import lists -> wildcards for the same sibling modules, LazyLock <-> lazy_static with equal (name, type, initialiser), exactly the configured custom use lines in every module, only outer attributes of type items with the six required derives exactly once.",
          "Trusted: syn projection, the allowance predicates in c19.rs. Payload-type uniqueness is judged on the generated payload tokens with module path and Box stripped. For opaque_open_types only 'no definition changes, nothing added when turning the flag on' is asserted.", "DESIGN.md §4 C19"),
